@@ -61,9 +61,36 @@ func runCoSi(c *vf.Check, n int) {
 				}
 				masks = append(masks, mi.Mask())
 			}
+			var VsEnc [][]byte
+			for _, V := range Vs {
+				b, _ := V.MarshalBinary()
+				VsEnc = append(VsEnc, b)
+			}
 			aggV, aggMask, err := cosi.AggregateCommitments(suite, Vs, masks)
 			if err != nil {
 				x.Failf(pk+"/AggregateCommitments", "%v", err)
+				return
+			}
+			// the aggregate is the sum of the commitments, the participants' commitments are left as they were,
+			// and aggregating the same commitments again (a leader retrying) gives the same result
+			wantV := suite.Point().Null()
+			for _, b := range VsEnc {
+				p := suite.Point()
+				_ = p.UnmarshalBinary(b)
+				wantV.Add(wantV, p)
+			}
+			if !aggV.Equal(wantV) {
+				x.Failf(pk+"/AggregateCommitments", "%s: the aggregate commitment is not the sum of the commitments", id)
+				return
+			}
+			for k, V := range Vs {
+				if b, _ := V.MarshalBinary(); !bytes.Equal(b, VsEnc[k]) {
+					x.Failf(pk+"/AggregateCommitments-clobbers-input", "%s: AggregateCommitments changed commitment %d of its input", id, k)
+					return
+				}
+			}
+			if again, _, err := cosi.AggregateCommitments(suite, Vs, masks); err != nil || !again.Equal(aggV) {
+				x.Failf(pk+"/AggregateCommitments-clobbers-input", "%s: aggregating the same commitments a second time gives another result (%v)", id, err)
 				return
 			}
 			if err := m.SetMask(aggMask); err != nil {
@@ -92,9 +119,24 @@ func runCoSi(c *vf.Check, n int) {
 				}
 				rs = append(rs, r)
 			}
+			var rsEnc [][]byte
+			for _, r := range rs {
+				b, _ := r.MarshalBinary()
+				rsEnc = append(rsEnc, b)
+			}
 			aggR, err := cosi.AggregateResponses(suite, rs)
 			if err != nil {
 				x.Failf(pk+"/AggregateResponses", "%v", err)
+				return
+			}
+			for k, r := range rs {
+				if b, _ := r.MarshalBinary(); !bytes.Equal(b, rsEnc[k]) {
+					x.Failf(pk+"/AggregateResponses-clobbers-input", "%s: AggregateResponses changed response %d of its input", id, k)
+					return
+				}
+			}
+			if again, err := cosi.AggregateResponses(suite, rs); err != nil || !again.Equal(aggR) {
+				x.Failf(pk+"/AggregateResponses-clobbers-input", "%s: aggregating the same responses a second time gives another result (%v)", id, err)
 				return
 			}
 			sig, err := cosi.Sign(suite, aggV, aggR, m)
